@@ -229,7 +229,13 @@ def eval_pandas(case):
     # --- ParserError / DATATYPE_COERCION
     ev.labels.append("pd:outcome=parser-error")
     pairs = res["pairs"]
-    if all_clear and elems and not (fam in ("datetime", "date") and P.datetime_precondition(elems)):
+    # a typed datetime64/timedelta64 source may be refused as a whole by numpy/pandas casting rules
+    # (datetime64 -> timedelta64 ...): that is a container-level, not an element-level, incompatibility
+    src_kind = getattr(obj.dtype, "kind", "O")
+    typed_incompatible = (src_kind == "M" and fam not in ("datetime", "date", "object", "str", "string")) or \
+                         (src_kind == "m" and fam not in ("timedelta", "object", "str", "string"))
+    if all_clear and elems and not typed_incompatible and \
+            not (fam in ("datetime", "date") and P.datetime_precondition(elems)):
         ev.add(f"rejected-all-convertible:{tag}", {"elements": [V.show(v) for v in elems], "phys": str(obj.dtype),
                                                    "reported": [[V.show(l), V.show(v)] for l, v in pairs]})
     # pandas may re-box one null kind into another (Index.to_series, reset_index), which changes what
